@@ -6,7 +6,7 @@ import re
 from ..flow import GuardMap
 from ..model import AnalysisError, norm
 from ..pyeval import Interp, Unsupported
-from .common import names_in, dep_closure
+from .common import names_in, dep_closure, guard_requires
 
 # documented CSVW / UTS#35 field letters and the strptime directive each stands for
 TOKENS = {'d': '%d', 'dd': '%d', 'M': '%m', 'MM': '%m', 'yy': '%y', 'yyyy': '%Y', 'HH': '%H', 'mm': '%M', 'ss': '%S',
@@ -26,6 +26,7 @@ def check(run):
     dkeys(run, p)
     types(run, p)
     isolang(run, p)
+    precedence(run, p)
     from .common import nocache_rule
     nocache_rule(run, 'C16-NOCACHE', p, ['tdda.serial.reader', 'tdda.serial.csvw', 'tdda.serial.pandasio', 'tdda.serial.base'],
                  'metadata is read from the file each time it is needed: no memoising decorator and no class-level container used as a cache '
@@ -180,3 +181,56 @@ def isolang(run, p):
                'RE_ISO8601 %s %s' % ('accepts' if miss is None else 'no longer accepts', s), rel=m.rel,
                line=m.consts['RE_ISO8601'].lineno, nontrivial=False)
     run.floor('C16-ISOLANG', 1 + len(musts), 5)
+
+
+def precedence(run, p):
+    run.rule('C16-EXPLICIT', 'what the CSVW dialect states explicitly wins over what is inherited from the dc:replaces provenance: in '
+                             'get_dialect every store into the dialect is reached only under a test that the same key is absent from '
+                             'it (dialect.get(k) is None / not dialect.get(k) / k not in dialect)')
+    f = p.method('CSVWMetadata', 'get_dialect')
+    gm = GuardMap(f.node)
+    names = set()
+    for s in p.own_nodes(f):
+        if isinstance(s, ast.Assign) and isinstance(s.value, ast.Call) and norm(s.value.func).endswith('.get') and \
+                s.value.args and isinstance(s.value.args[0], ast.Constant) and s.value.args[0].value == 'dialect':
+            for t in s.targets:
+                if isinstance(t, ast.Name):
+                    names.add(t.id)
+    if not names:
+        raise AnalysisError('get_dialect no longer binds the dialect dictionary')
+    n = 0
+    for s in p.own_nodes(f):
+        tgts = []
+        if isinstance(s, ast.Assign):
+            tgts = [t for t in s.targets if isinstance(t, ast.Subscript) and isinstance(t.value, ast.Name) and t.value.id in names]
+        elif isinstance(s, ast.Call) and isinstance(s.func, ast.Attribute) and s.func.attr in ('update', 'setdefault') and \
+                isinstance(s.func.value, ast.Name) and s.func.value.id in names:
+            n += 1
+            ok = s.func.attr == 'setdefault'
+            run.ob('C16-EXPLICIT', '%s::%s::%s' % (f.rel, f.short, norm(s)[:50]), ok,
+                   '%s %s' % (norm(s)[:50], 'only fills a missing key' if ok else 'overwrites explicit dialect keys'), fn=f, node=s)
+        for t in tgts:
+            n += 1
+            k = norm(t.slice)
+            d = t.value.id
+
+            def absent(e, pol, k=k, d=d):
+                txt = norm(e)
+                if txt == '%s.get(%s) is None' % (d, k) and pol:
+                    return True
+                if txt == '%s.get(%s) is not None' % (d, k) and not pol:
+                    return True
+                if txt == '%s.get(%s)' % (d, k) and not pol:
+                    return True
+                if txt == '%s not in %s' % (k, d) and pol:
+                    return True
+                if txt == '%s in %s' % (k, d) and not pol:
+                    return True
+                return False
+            ch = gm.chain(s) or ()
+            ok = any(g.kind == 'if' and guard_requires(g.test, g.pol, absent) for g in ch)
+            run.ob('C16-EXPLICIT', '%s::%s::%s[%s]' % (f.rel, f.short, d, k), ok,
+                   '%s[%s] is filled from dc:replaces %s' % (d, k, 'only when the dialect does not give it' if ok else
+                                                            'without testing that the dialect lacks it: an explicit value is overwritten'),
+                   fn=f, node=s)
+    run.floor('C16-EXPLICIT', n, 2)
